@@ -129,6 +129,7 @@ struct CountFormat {
   template <class Filter, class Out> static void RunFilter(util::FilePiece &in, Filter &filter, Out &output) {
     DispatchInput<Filter, Out> dispatcher(filter, output);
     ReadCount(in, dispatcher);
+    filter.Flush();
   }
 };
 
